@@ -67,6 +67,43 @@ func c19R1(c *Ctx) {
 		flavs = append(flavs, f)
 		return true
 	})
+	// a separate arm that hands every slot to one flavor (Count: Adapters − 1, the Lingjun arm) shares no
+	// path with the slot accounting below: such a flavor is checked by its form and set aside
+	{
+		q := NewPathQuery(p, fn, nil)
+		var main []flav
+		for i, f := range flavs {
+			whole := false
+			if f.count != nil {
+				e := NewFactEngine(p, fn)
+				var ps []string
+				l := e.linearOf(f.count, e.fnScope(), &ps)
+				nz, adapters := 0, false
+				for n, v := range l.terms {
+					if v != 0 {
+						nz++
+						if v == 1 && strings.HasSuffix(n, ".Adapters") {
+							adapters = true
+						}
+					}
+				}
+				whole = l.ok && nz == 1 && adapters && l.k == -1
+			}
+			if whole {
+				for j, g := range flavs {
+					if i != j && (q.Escapes(isExactly(f.stmt), isExactly(g.stmt), nil, nil) != nil || q.Escapes(isExactly(g.stmt), isExactly(f.stmt), nil, nil) != nil) {
+						whole = false
+					}
+				}
+			}
+			if whole {
+				c.OK("C19.R1", "a flavor that takes every slot stands alone on its path", p.Pos(f.stmt), fn.Key(), "Count: Adapters − 1, no other flavor on any path through it")
+				continue
+			}
+			main = append(main, f)
+		}
+		flavs = main
+	}
 	c.Floor("C19.R1", "flavor entries built by the node reconciler", 3, len(flavs))
 	// the remainder variable
 	var rem types.Object
